@@ -393,6 +393,38 @@ func (c *c09) run(tape *kernel.Tape) {
 		}
 		c0.TokenType = old
 	}
+	// fresh genuine codes redeemed with every combination of "challenge at authorization" and "verifier at redemption"
+	// (also the ones that make no sense: a verifier nobody asked for, none where one is due, an empty one, two of them)
+	for _, client := range []string{"web", "native", "odd"} {
+		for _, chal := range []string{"none", "S256", "plain"} {
+			for _, ver := range []string{"right", "none", "wrong", "empty", "twice", "stray"} {
+				client, chal, ver := client, chal, ver
+				if (ver == "stray") != (chal == "none") && ver != "none" && ver != "empty" {
+					continue // "stray" only without a challenge, right/wrong/twice only with one
+				}
+				add(fmt.Sprintf("fresh-code/%s/challenge=%s/verifier=%s", client, chal, ver), func() *world.Resp {
+					b := w.Net.NewBrowser("fc")
+					s, err := authorizeToCode(w, b, flowOpts{client: client, scopes: []string{oidc.ScopeOpenID}, pkce: chal})
+					if err != nil || s.code == "" {
+						return nil
+					}
+					c.o.Probe("fresh-codes-redeemed-with-verifier-anomalies")
+					f := url.Values{"grant_type": {"authorization_code"}, "code": {s.code}, "redirect_uri": {s.redirect}}
+					switch ver {
+					case "right":
+						f.Set("code_verifier", s.verifier)
+					case "wrong", "stray":
+						f.Set("code_verifier", "a-verifier-nobody-knows-0123456789-0123456789-0123456789")
+					case "empty":
+						f.Set("code_verifier", "")
+					case "twice":
+						f["code_verifier"] = []string{s.verifier, "second-verifier-0123456789-0123456789-0123456789-01234"}
+					}
+					return w.PostForm("/oauth/token", f, w.RightCreds(client))
+				})
+			}
+		}
+	}
 	for round, d := range []time.Duration{w.Store.AccessLifetime + time.Minute, 7 * time.Hour} {
 		d := d
 		add(fmt.Sprintf("aged=advance-clock-%d", round), func() *world.Resp {
